@@ -37,6 +37,8 @@ def run(ctx):
         ctx.guard(consumers.accept_sets, ctx, cfg, fs, 'A.accept-sets')
         ctx.guard(strictness, ctx, cfg, fs)
         ctx.guard(position_carried, ctx, cfg, fs)
+        import wiring
+        ctx.guard(wiring.builders, ctx, cfg, fs, 'S.strictness', r'^(positional|params::build_positional|params::ParsePositional::<T>::(strict|non_strict|help))$')
         ctx.guard(classes, ctx, cfg, fs)
         ctx.guard(helpflag, ctx, cfg, fs)
         import c06, c08
